@@ -75,3 +75,19 @@ where
         _ = self.cons.push(data).await;
     }
 }
+
+#[cfg(transparencies_stretto_verif)]
+#[cfg(feature = "sync")]
+impl<S> RingStripe<S> {
+    pub(crate) fn verif_data(&self) -> Vec<u64> {
+        self.data.lock().clone()
+    }
+}
+
+#[cfg(transparencies_stretto_verif)]
+#[cfg(feature = "async")]
+impl<S> AsyncRingStripe<S> {
+    pub(crate) fn verif_data(&self) -> Vec<u64> {
+        self.data.lock().clone()
+    }
+}
